@@ -34,8 +34,9 @@ SPEC = {
         "is a different code (the model ignores a second create event)",
         "at most one storage failure per call (any number of calls may each have one); failures absorbed by the code (ID-generator "
         "retry, client-index appends, anything inside a roll-back) are modelled as no failure",
-        "'only while valid' (holdsValid) is proved per step (C06_valid_partial, C06_recheck_partial) and evaluated on every model run "
-        "and implementation observation; the positional statement over event prefixes is not mechanised (partial)",
+        "'only while valid' is judged at two instants of a successful activation, its read of the record and its re-decision "
+        "before anything is created (C06_valid: positions in the event list; C06_decision_instant: the record as stored at the "
+        "re-decision is unrevoked, unused, unexpired); the as-found sequential-safety statement C06_seq_partial is not mechanised",
         "cases in which a code record is re-written after the period ended with a TTL computed before (stale positive TTL, visible for "
         "a few ms) are executed but not compared (counted as skipped:stale-ttl)",
         "PostgreSQL/remote storage backends and the hybrid storage routing are not exercised (C14); quota counting races are C17",
